@@ -85,7 +85,14 @@ class JaxOperator(Operator):
         self._domain = makeDomain(domain)
         self._target = makeDomain(target)
         self._func = jax.jit(func)
-        self._bwd = jax.jit(lambda x, y: jax.vjp(func, x)[1](y)[0])
+
+        def _vjp(x, y):
+            # a real cotangent is legitimate for a complex-valued output (e.g. the
+            # adjoint of `.real`); jax.vjp insists on the output's dtype
+            out, bwd = jax.vjp(func, x)
+            y = jax.tree_util.tree_map(lambda oo, yy: yy.astype(oo.dtype), out, y)
+            return bwd(y)[0]
+        self._bwd = jax.jit(_vjp)
         self._fwd = jax.jit(lambda x, y: jax.jvp(self._func, (x,), (y,))[1])
 
     def apply(self, x):
